@@ -43,6 +43,14 @@ using namespace graphite2;
 enum { VA_PSEUDO = 0, VA_BREAK = 1, VA_BIDI = 2, VA_MIRROR = 3 };
 
 static inline float nondet_fin(float bound) { float f = nondet_float(); ASSUME(f >= -bound && f <= bound); return f; }
+// value on a coarser grid than the lowering's own: a multiple of 1/inv_step (so that products of two such values stay on the grid)
+static inline float nondet_grid(float bound, int inv_step) {
+  float f = nondet_fin(bound);
+  float g = f * (float)inv_step;
+  ASSUME(g == (float)(int)g);
+  return f;
+}
+static inline Position nondet_gpos(float bound, int inv_step) { return Position(nondet_grid(bound, inv_step), nondet_grid(bound, inv_step)); }
 static inline Position nondet_pos(float bound) { return Position(nondet_fin(bound), nondet_fin(bound)); }
 
 struct VhAttr { uint16 first, second; };
